@@ -424,20 +424,33 @@ static int _fetch_headers(OggVorbis_File *vf,vorbis_info *vi,vorbis_comment *vc,
    next page.  Consumes the page in the process without decoding
    audio, however this is only called during stream parsing upon
    seekable open. */
-static ogg_int64_t _initial_pcmoffset(OggVorbis_File *vf, vorbis_info *vi){
+/* also reports, through dataoffset (left alone if the link has no
+   audio page), where the link's first audio page begins: pages of
+   other multiplexed streams may sit between the headers and it, and
+   the seeking code tells 'the first audio page of the link' by this
+   offset */
+static ogg_int64_t _initial_pcmoffset(OggVorbis_File *vf, vorbis_info *vi,
+                                      ogg_int64_t *dataoffset){
   ogg_page    og;
   ogg_int64_t accumulated=0;
   long        lastblock=-1;
   int         result;
   int         serialno = vf->os.serialno;
+  int         first=1;
 
   while(1){
     ogg_packet op;
-    if(_get_next_page(vf,&og,-1)<0)
+    ogg_int64_t pagepos=_get_next_page(vf,&og,-1);
+    if(pagepos<0)
       break; /* should not be possible unless the file is truncated/mangled */
 
     if(ogg_page_bos(&og)) break;
     if(ogg_page_serialno(&og)!=serialno) continue;
+
+    if(first){
+      if(dataoffset)*dataoffset=pagepos;
+      first=0;
+    }
 
     /* count blocksizes of all frames in the page */
     ogg_stream_pagein(&vf->os,&og);
@@ -583,7 +596,7 @@ static int _bisect_forward_serialno(OggVorbis_File *vf,
 
     /* this will consume a page, however the next bisection always
        starts with a raw seek */
-    pcmoffset = _initial_pcmoffset(vf,&vi);
+    pcmoffset = _initial_pcmoffset(vf,&vi,&dataoffset);
 
     ret=_bisect_forward_serialno(vf,next,vf->offset,end,endgran,endserial,
                                  next_serialno_list,next_serialnos,m+1);
@@ -637,7 +650,7 @@ static int _open_seekable2(OggVorbis_File *vf){
      storage in vf */
 
   /* fetch initial PCM offset */
-  ogg_int64_t pcmoffset = _initial_pcmoffset(vf,vf->vi);
+  ogg_int64_t pcmoffset = _initial_pcmoffset(vf,vf->vi,&dataoffset);
 
   /* we can seek, so set out learning all about this file */
   if(vf->callbacks.seek_func && vf->callbacks.tell_func){
